@@ -226,6 +226,44 @@ def global_history_case(ctx, case):
     ctx.evaluations += n - 1
 
 
+def cache_reuse_case(ctx, case):
+    """the embedder hands the cache a run returned to the next run (with the clock somewhere else by then): every check uses the
+    verifier clock of its own run"""
+    which, clocks, thr = case
+    t = 1_700_000_000
+    cache = {'timestamp': t}
+    n = 0
+    for i, dn in enumerate(clocks):
+        now = t - dn
+        env.Clock.now = now
+        n += 1
+        if which == 'CTS':
+            want = thr <= 0 or t - now < thr
+            code = pushc((t - 5).to_bytes(4, 'big')) + op('CHECK_TIMESTAMP')
+            fl = {'ts_threshold': thr}
+        else:
+            want = t - now < thr
+            code = pushc(t.to_bytes(4, 'big')) + op('CHECK_EPOCH')
+            fl = {'epoch_threshold': max(thr, 0)}
+            want = t - now < max(thr, 0)
+        r, st, c2 = run(code, cache, additional_flags=fl)
+        ctx.ran(); ctx.trans(2)
+        ctx.state(('cache reuse', which, clocks, thr, i))
+        g = got_of(r, st)
+        ctx.outcome('reuse:' + g[:5])
+        if g != ('true' if want else 'false'):
+            ctx.violation({'op': 'CHECK_TIMESTAMP' if which == 'CTS' else 'CHECK_EPOCH', 'clause': 'verifier clock of the run itself',
+                           'history': 'returned cache handed to the next run'},
+                          f'{which} threshold {thr}, run {i + 1} of clocks t-{list(clocks)} on the cache the previous run returned: want {want}, got {g}')
+        if c2 is not None:
+            extra = sorted(k for k in c2 if type(k) is str and k != 'timestamp')
+            if extra:
+                ctx.violation({'op': 'CHECK_TIMESTAMP' if which == 'CTS' else 'CHECK_EPOCH', 'clause': 'a time check leaves no string-keyed entry in the cache'},
+                              f'{which}: returned cache has {extra}')
+            cache = dict(c2)
+    ctx.evaluations += n - 1
+
+
 DEF_THR = 60
 
 
@@ -291,6 +329,9 @@ def blocks(tier, seed):
     return [
         Block('CHECK_TIMESTAMP_grid', anchors, cts_case, 't x c in t+-2 x every encoding 1..9 bytes x thr x now around thr', nshards=len(anchors)),
         Block('CHECK_EPOCH_grid', anchors, ce_case, 'c x encodings x ethr x now around ethr', nshards=len(anchors)),
+        Block('returned_cache_reused_by_later_runs', [(w, seq, thr) for w in ('CTS', 'CE') for thr in (10, 60)
+                                                      for seq in ((thr, thr - 1), (thr - 1, thr), (thr + 5, 0, thr), (0, thr, thr - 1, thr + 1), (-100, thr - 1, thr))],
+              cache_reuse_case, 'CHECK_TIMESTAMP / CHECK_EPOCH x threshold {10, 60} x 5 clock sequences across the slack edge, each run on the cache the previous one returned', nshards=20),
         Block('global_threshold_histories', [(w, seq) for w in ('CTS', 'CE') for seq in ((60, 0, 100), (0, 60), (100, 5, 60), (5, 100, 0))],
               global_history_case, 'functions.flags thresholds changed between runs (4 sequences) x clock around each x run_script / run_auth_scripts',
               nshards=8),
